@@ -32,9 +32,9 @@ type c18Point struct {
 	Symlink bool `json:"symlink"`
 	LinkUid int  `json:"linkUid"`
 	// attributes for the second execution
-	Uid2  int `json:"uid2"`
-	Gid2  int `json:"gid2"`
-	Mode2 int `json:"mode2"`
+	Uid2  int    `json:"uid2"`
+	Gid2  int    `json:"gid2"`
+	Mode2 int    `json:"mode2"`
 	Via   string `json:"via"` // exec | sensor | fan
 }
 
